@@ -134,6 +134,8 @@ func GenOps(r *simrt.Rand, cfg *Config, pools *Pools, prof *Profile) []Op {
 	n := 1 + r.Intn(prof.MaxOps)
 	if r.Chance(1, 2) {
 		n = 1 + r.Intn(1+prof.MaxOps/3) // most runs are short
+	} else if prof.MaxOps >= 20 && r.Chance(1, 6) {
+		n = prof.MaxOps + r.Intn(3*prof.MaxOps) // a few are long: larger collections and indexes
 	}
 	weights := map[string]int{}
 	for k, v := range defaultWeights {
